@@ -6,211 +6,6 @@ verus! {
 global size_of usize == 8;
 //@include prelude/std_contracts.rs
 
-spec fn bit_of(b: usize, k: usize) -> bool { b & (1usize << k) != 0 }
-
-/*@struct name=AdjacencyMatrix @*/
-
-impl AdjacencyMatrix {
-    spec fn ncells(&self) -> int { self.order as int * self.order as int }
-    spec fn cell(&self, i: int) -> bool {
-        0 <= i < self.blocks@.len() * 64 && bit_of(self.blocks@[i / 64], (i % 64) as usize)
-    }
-    /// arc relation of the abstract digraph
-    spec fn has(&self, u: int, v: int) -> bool {
-        0 <= u < self.order && 0 <= v < self.order && self.cell(u * self.order + v)
-    }
-    /// representation invariant
-    spec fn wf(&self) -> bool {
-        &&& self.order > 0
-        &&& self.ncells() <= usize::MAX
-        &&& self.blocks@.len() == (self.ncells() + 63) / 64
-        &&& forall|i: int| self.ncells() <= i ==> !#[trigger] self.cell(i)
-        &&& forall|u: int| 0 <= u < self.order ==> !#[trigger] self.cell(u * self.order + u)
-    }
-
-    /*@fn impl=AdjacencyMatrix name=mask
-    ensures
-        r == 1usize << (u & 63),
-    @fn_start
-        assert(u & 63 < 64) by (bit_vector);
-    @*/
-
-    /*@fn impl=AdjacencyMatrix name=index
-    requires
-        self.order * self.order <= usize::MAX,
-        u < self.order,
-        v < self.order,
-    ensures
-        r == u * self.order + v,
-        r < self.order * self.order,
-    @fn_start
-        assert(u * self.order + v < self.order * self.order) by (nonlinear_arith)
-            requires u < self.order, v < self.order;
-    @*/
-
-    /*@fn impl=AdjacencyMatrix trait=Order name=order
-    ensures
-        r == self.order,
-    @*/
-
-    /*@fn impl=AdjacencyMatrix trait=ContiguousOrder name=contiguous_order
-    ensures
-        r == self.order,
-    @*/
-
-    /*@fn impl=AdjacencyMatrix trait=Empty name=empty
-    ensures
-        order > 0,
-        r.wf(),
-        r.order == order,
-        forall|a: int, b: int| !r.has(a, b),
-    @fn_end
-        proof {
-            assert(!bit_of(0usize, 0usize)) by (bit_vector);
-            assert(forall|k: usize| k < 64 ==> !#[trigger] bit_of(0usize, k)) by (bit_vector);
-        }
-    @*/
-
-    /*@fn impl=AdjacencyMatrix name=toggle
-    requires
-        old(self).wf(),
-    ensures
-        final(self).wf(),
-        final(self).order == old(self).order,
-        u != v && u < old(self).order && v < old(self).order,
-        forall|a: int, b: int| #![trigger final(self).has(a, b)] final(self).has(a, b) == (if a == u && b == v { !old(self).has(a, b) } else { old(self).has(a, b) }),
-    @panic *
-        assert(*self == *old(self));
-    @after `let i = self.index(u, v);`
-        proof {
-            assert(i >> 6 == i / 64 && i & 63 == i % 64) by (bit_vector);
-            assert(forall|b: usize, k: usize, ki: usize| k < 64 && ki < 64 ==> #[trigger] bit_of(b ^ (1usize << ki), k) == (if k == ki { !bit_of(b, k) } else { bit_of(b, k) })) by (bit_vector);
-        }
-    @fn_end
-        proof {
-            assert forall|j: int| #[trigger] self.cell(j) == (if j == i { !old(self).cell(j) } else { old(self).cell(j) }) by {
-                if 0 <= j < self.blocks@.len() * 64 && j / 64 == i / 64 {
-                    let k = (j % 64) as usize; let ki = (i % 64) as usize;
-                    assert(k < 64 && ki < 64);
-                }
-            }
-            lemma_cells_to_has(*old(self), *self, u as int, v as int);
-        }
-    @*/
-
-    /*@fn impl=AdjacencyMatrix trait=AddArc name=add_arc
-    requires
-        old(self).wf(),
-    ensures
-        final(self).wf(),
-        final(self).order == old(self).order,
-        u != v && u < old(self).order && v < old(self).order,
-        forall|a: int, b: int| #![trigger final(self).has(a, b)] final(self).has(a, b) == (old(self).has(a, b) || (a == u && b == v)),
-    @panic *
-        assert(*self == *old(self));
-    @after `let i = self.index(u, v);`
-        proof {
-            assert(i >> 6 == i / 64 && i & 63 == i % 64) by (bit_vector);
-            assert(forall|b: usize, k: usize, ki: usize| k < 64 && ki < 64 ==> #[trigger] bit_of(b | (1usize << ki), k) == (if k == ki { true } else { bit_of(b, k) })) by (bit_vector);
-        }
-    @fn_end
-        proof {
-            assert forall|j: int| #[trigger] self.cell(j) == (if j == i { true } else { old(self).cell(j) }) by {
-                if 0 <= j < self.blocks@.len() * 64 && j / 64 == i / 64 {
-                    let k = (j % 64) as usize; let ki = (i % 64) as usize;
-                    assert(k < 64 && ki < 64);
-                }
-            }
-            lemma_cells_to_has(*old(self), *self, u as int, v as int);
-        }
-    @*/
-
-    /*@fn impl=AdjacencyMatrix trait=HasArc name=has_arc
-    requires
-        self.wf(),
-    ensures
-        r == self.has(u as int, v as int),
-    @after `let i = self.index(u, v);`
-        proof {
-            assert(i >> 6 == i / 64 && i & 63 == i % 64) by (bit_vector);
-        }
-    @*/
-
-    /*@fn impl=AdjacencyMatrix trait=HasEdge name=has_edge
-    requires
-        self.wf(),
-    ensures
-        r == (self.has(u as int, v as int) && self.has(v as int, u as int)),
-    @*/
-
-    /*@fn impl=AdjacencyMatrix trait=RemoveArc name=remove_arc
-    requires
-        old(self).wf(),
-    ensures
-        final(self).wf(),
-        final(self).order == old(self).order,
-        r == old(self).has(u as int, v as int),
-        forall|a: int, b: int| #![trigger final(self).has(a, b)] final(self).has(a, b) == (old(self).has(a, b) && !(a == u && b == v)),
-    @after `let i = self.index(u, v);`
-        proof {
-            assert(i >> 6 == i / 64 && i & 63 == i % 64) by (bit_vector);
-            assert(forall|b: usize, k: usize, ki: usize| k < 64 && ki < 64 ==> #[trigger] bit_of(b & !(1usize << ki), k) == (if k == ki { false } else { bit_of(b, k) })) by (bit_vector);
-        }
-    @fn_end
-        proof {
-            assert forall|j: int| #[trigger] self.cell(j) == (if j == i { false } else { old(self).cell(j) }) by {
-                if 0 <= j < self.blocks@.len() * 64 && j / 64 == i / 64 {
-                    let k = (j % 64) as usize; let ki = (i % 64) as usize;
-                    assert(k < 64 && ki < 64);
-                }
-            }
-            lemma_cells_to_has(*old(self), *self, u as int, v as int);
-        }
-    @*/
-}
-
-proof fn lemma_index_inj(a: int, b: int, u: int, v: int, n: int)
-    requires 0 <= a < n, 0 <= b < n, 0 <= u < n, 0 <= v < n, a * n + b == u * n + v,
-    ensures a == u && b == v,
-{
-    assert(a == u) by (nonlinear_arith)
-        requires 0 <= a < n, 0 <= b < n, 0 <= u < n, 0 <= v < n, a * n + b == u * n + v;
-}
-
-proof fn lemma_index_bound(a: int, b: int, n: int)
-    requires 0 <= a < n, 0 <= b < n,
-    ensures 0 <= a * n + b < n * n,
-{
-    assert(0 <= a * n + b < n * n) by (nonlinear_arith) requires 0 <= a < n, 0 <= b < n;
-}
-
-/// lifting a one-cell change at (u, v) to the arc relation and to the representation invariant
-proof fn lemma_cells_to_has(o: AdjacencyMatrix, n: AdjacencyMatrix, u: int, v: int)
-    requires
-        o.wf(),
-        n.order == o.order,
-        n.blocks@.len() == o.blocks@.len(),
-        0 <= u < o.order, 0 <= v < o.order,
-        u == v ==> !n.cell(u * o.order + v),
-        forall|j: int| j != u * o.order + v ==> #[trigger] n.cell(j) == o.cell(j),
-    ensures
-        n.wf(),
-        forall|a: int, b: int| #![trigger n.has(a, b)] !(a == u && b == v) ==> n.has(a, b) == o.has(a, b),
-        n.has(u, v) == n.cell(u * o.order + v),
-        o.has(u, v) == o.cell(u * o.order + v),
-{
-    let ord = o.order as int;
-    lemma_index_bound(u, v, ord);
-    assert forall|a: int, b: int| #![trigger n.has(a, b)] !(a == u && b == v) implies n.has(a, b) == o.has(a, b) by {
-        if 0 <= a < ord && 0 <= b < ord {
-            if a * ord + b == u * ord + v { lemma_index_inj(a, b, u, v, ord); }
-        }
-    }
-    assert forall|i: int| n.ncells() <= i implies !#[trigger] n.cell(i) by { assert(!o.cell(i)); }
-    assert forall|a: int| 0 <= a < n.order implies !#[trigger] n.cell(a * n.order + a) by {
-        if a * ord + a == u * ord + v { lemma_index_inj(a, a, u, v, ord); } else { assert(!o.cell(a * ord + a)); }
-    }
-}
-
+//@include units/inc/matrix_core.inc.rs
 } // verus!
 fn main() {}
